@@ -42,7 +42,10 @@ def make_coord(rng, ids, n, kind=None, increasing=False):
     vals = ids.increasing(n, integer=integer)
     if not increasing and rng.random() < 0.3:
         rng.shuffle(vals)
-    return {"kind": kind, "ids": vals}
+    co = {"kind": kind, "ids": vals}
+    if integer and min(vals) >= 0 and rng.random() < 0.25:
+        co["dtype"] = rng.choice(["uint16", "uint32", "uint64"])      # an unsigned integer coordinate
+    return co
 
 
 def make_var(rng, ids, raw, dims, p_nan, p_inf, scale=P.SCALE, finite=False, small=False):
